@@ -466,6 +466,7 @@ namespace GeographicLib {
     // So use series if (2*e/(1-e2)*dx) is sufficiently small
     real s, dx = 1 - x, dy = 1 - y, xy = 1, yy = 1, ee = _e2 / Math::sq(_e2m);
     s = ee;
+    int nsmall = 0;
     for (int m = 1; ; ++m) {
        real c = m + 2, t = c;
       yy *= dy;               // yy = dy^m
@@ -487,8 +488,13 @@ namespace GeographicLib {
       // Straight sum for outer m series
       real ds = t * ee * xy / (m + 2);
       s = s + ds;
-      if (!(fabs(ds) > fabs(s) * eps_/2))
-        break;            // Iterate until the added term is sufficiently small
+      // Iterate until the added term is sufficiently small.  Require two
+      // successive small terms because an individual term can vanish, e.g.,
+      // for e2 = -3.
+      if (!(fabs(ds) > fabs(s) * eps_/2)) {
+        if (++nsmall >= 2) break;
+      } else
+        nsmall = 0;
     }
     return s;
   }
